@@ -40,12 +40,22 @@ CHECKS['C13'] = dict(
     note='Trusted: rustc MIR dump, vf.engine, vf.strmodel (bounded contracts for str::find/rfind/ends_with/parse from the std documentation), z3. Bound: request targets <= 20 bytes (quick) / 28 (thorough). The socket-facing steps (peek sniffing, the single 1024-byte read after CONNECT, FramedRead::into_inner between the two SOCKS5 decoders, command types other than CONNECT being tunnelled) are async shell code outside the claim.',
     technique='MIR symbolic execution to z3 (RFC 1928 wire images and a reference URI grammar as symbolic byte arrays; bounded str contracts)', design='DESIGN.md section 2, C13')
 
+CHECKS['C05'] = dict(
+    text='Ideal-AEAD (INT-CTXT) ghost log: the log holds what the genuine peers of both directions sealed, written from the protocol specifications with symbolic sizes and contents; the real decoders (Shadowsocks ChunkDecoder, the TCP decoder for the AEAD and 2022 ciphers in server and client mode, ...) are driven the way FramedRead drives them on a FULLY ARBITRARY attacker byte string of arbitrary length delivered in 1 or 2 segments with a symbolic cut - every flip, truncation, deletion, duplication, swap, splice and reflection is a value of it. Oracle: the released bytes are a whole-chunk prefix of what the genuine sender of that direction wrote (2022: a reflected or opposite-direction stream releases nothing; legacy ciphers: reflection exempt as the property says). Counterexamples are replayed on the real FramedRead round the real decoder with the model AEAD outcomes.',
+    note='Trusted: rustc MIR dump, vf.engine, vf.ideal (a ciphertext opens only if the same key identity, nonce, length and tag were sealed; key derivations are injective pairings), props/wire.py layouts, z3. Bounds: K genuine chunks per direction (2 quick / 3 thorough), 1-2 segments. Async relay behaviour after an error is outside.',
+    technique='MIR symbolic execution to z3 (ideal-AEAD ghost log; arbitrary attacker stream; prefix oracle)', design='DESIGN.md section 2, C05')
+
+CHECKS['C04'] = dict(
+    text='Genuine streams laid out from the specifications (symbolic sizes/contents, ideal-AEAD log in exact mode) are fed to the real decoders through a model of FramedRead\'s documented loop in 1, 2 (quick) or 3 (thorough) consecutive non-empty segments with symbolic cut points - every cut position of every frame length at once - after which the transport goes quiet: no segmentation yields an error, and everything the sender wrote has been released, in order, by the time the last byte has arrived (no stall, no loss). Counterexamples are replayed on the real tokio-util FramedRead round the real decoder.',
+    note='Trusted: rustc MIR dump, vf.engine, vf.ideal exact mode, props/wire.py layouts, the FramedRead loop as documented (replays use the real one), z3. Shadowsocks 2022 salt+fixed header boundary exempt as the property says. More than 3 segments and the transports below AsyncRead are outside.',
+    technique='MIR symbolic execution to z3 (genuine stream, symbolic cut points, FramedRead loop model)', design='DESIGN.md section 2, C04')
+
 NOT_APPLICABLE = {
  'C08': 'property is about long-lived async accept/select! loops under injected socket/TLS/DNS faults; no synchronous core that symbolic execution of MIR or Kani can reach (tokio runtime, epoll, FFI)',
  'C09': 'quantifies over thread interleavings of shared state; Kani has no thread model and Engine M is sequential',
  'C15': 'EOF propagation through Stream::forward/try_join!, QUIC finish/stopped and descriptor release are runtime/OS behaviour with no synchronous core to encode',
 }
-PENDING = ['C01', 'C02', 'C03', 'C04', 'C05', 'C06', 'C07', 'C10', 'C12', 'C13', 'C14', 'C16']
+PENDING = ['C01', 'C02', 'C03', 'C06', 'C07', 'C10', 'C12', 'C13', 'C14', 'C16']
 
 m = {
  'version': 1,
